@@ -53,6 +53,7 @@ mut("hh-pattern-count-off-by-one", HH, "    uint64_t cnt = 0u;\n    for (uint64_
 mut("ev-reschedule-keeps-old-time", EV, "    cmi_hashheap_reprioritize(event_queue, handle, time, pri);\n}", "    cmi_hashheap_reprioritize(event_queue, handle, cmi_hashheap_dkey(event_queue, handle), pri);\n}", ["C01"])
 mut("ev-clock-not-advanced-on-tie", EV, "    sim_time = new_time;", "    if (new_time > sim_time + 1e-9) sim_time = new_time;", ["C01"])
 
+mut("hh-auto-keys-count-down", HH, "    hp->item_counter += 1u;", "    hp->item_counter -= 1u;", ["C01", "C12"])
 # --- sim group ----------------------------------------------------------------
 mut("hold-keeps-timer-when-woken-otherwise", PR, "        cmb_process_timer_cancel(pp, handle);\n        cmi_process_remove_awaitable(pp, CMI_PROCESS_AWAITABLE_TIME, (void *)handle);", "        cmi_process_remove_awaitable(pp, CMI_PROCESS_AWAITABLE_TIME, (void *)handle);", ["C04"])
 mut("interrupt-no-pattern-cancel", PR, "    /* Make sure any previously scheduled wakeup event does not happen */\n    cmb_event_pattern_cancel(CMB_ANY_ACTION, pp, CMB_ANY_OBJECT);", "    /* Make sure any previously scheduled wakeup event does not happen */", ["C04", "C09", "C10"])
